@@ -18,6 +18,9 @@ pub struct Case {
     pub body: Vec<Goal>,
     pub after: Vec<Goal>,
     pub fd: bool,
+    /// the collection is a logic variable bound to the list, iterated below `project |l| { .. }`
+    /// (known only when the goal is solved)
+    pub via_project: bool,
 }
 
 fn decode(s: &mut Source) -> Case {
@@ -40,6 +43,36 @@ fn decode(s: &mut Source) -> Case {
         coll.push(e);
     }
     let x = Term::Var(LV);
+    // collections whose elements are lists themselves (also the empty list): the body is then a
+    // nested `for` over the element, or a domain posted on the element list
+    if s.flag(40) {
+        let n = 1 + s.below(4);
+        let coll: Vec<Term> = (0..n)
+            .map(|_| match s.below(4) {
+                0 => Term::Nil,
+                1 => Term::list(vec![q(s)]),
+                2 => Term::list(vec![q(s), int(s)]),
+                _ => Term::list(vec![int(s)]),
+            })
+            .collect();
+        let body = if fd {
+            let a = s.range(0, 2);
+            vec![Goal::Fd(FdGoal::InFdRange(x.clone(), a, s.range(a, 4)))]
+        } else {
+            let y = Term::Var(LV + 2);
+            let inner = match s.below(3) {
+                0 => Goal::Eq(y.clone(), int(s)),
+                1 => Goal::Diseq(y.clone(), int(s)),
+                _ => Goal::Call(Rel::Member, vec![y.clone(), Term::list(vec![int(s), int(s)])]),
+            };
+            vec![Goal::ForIn(LV + 2, x.clone(), vec![inner])]
+        };
+        let mut before = vec![];
+        if fd {
+            before.push(Goal::Fd(FdGoal::InFdRange(Term::list(vec![Term::Var(0), Term::Var(1)]), 0, 4)));
+        }
+        return Case { before, coll, body, after: vec![], fd, via_project: false };
+    }
     let nb = 1 + s.below(3);
     let mut body = vec![];
     for _ in 0..nb {
@@ -86,7 +119,7 @@ fn decode(s: &mut Source) -> Case {
             after.push(g)
         }
     }
-    Case { before, coll, body, after, fd }
+    Case { before, coll, body, after, fd, via_project: false }
 }
 
 /// Long collections (up to 400, thorough 1000 elements); bodies that stay (nearly)
@@ -147,7 +180,7 @@ fn decode_long(s: &mut Source, thorough: bool) -> Case {
             after.push(g)
         }
     }
-    Case { before, coll, body, after, fd }
+    Case { before, coll, body, after, fd, via_project: false }
 }
 
 fn run_long(bytes: &[u8], ctx: &Ctx) -> CaseInfo {
@@ -160,9 +193,19 @@ fn run_long(bytes: &[u8], ctx: &Ctx) -> CaseInfo {
     info
 }
 
+const LCOLL: VarId = 8; // the variable holding the collection in the via_project form
+
 fn with_for(c: &Case) -> Program {
     let mut body = c.before.clone();
-    body.push(Goal::For(LV, c.coll.clone(), c.body.clone()));
+    if c.via_project {
+        let l = Term::Var(LCOLL);
+        body.push(Goal::Fresh(
+            vec![LCOLL],
+            vec![Goal::Eq(l.clone(), Term::list(c.coll.clone())), Goal::Project(vec![LCOLL], vec![Goal::ForIn(LV, l, c.body.clone())])],
+        ));
+    } else {
+        body.push(Goal::For(LV, c.coll.clone(), c.body.clone()));
+    }
     body.extend(c.after.iter().cloned());
     Program { nq: 2, body }
 }
@@ -254,8 +297,19 @@ fn run_family(bytes: &[u8], ctx: &Ctx) -> CaseInfo {
     eval(&c, ctx)
 }
 
+/// `l == [..], project |l| { for x in &l { body } }`: the collection is known only when the goal
+/// is solved.
+fn run_via_project(bytes: &[u8], ctx: &Ctx) -> CaseInfo {
+    let mut s = Source::new(bytes);
+    let mut c = decode(&mut s);
+    c.via_project = true;
+    let mut info = eval(&c, ctx);
+    info.class("collection-known-at-solve-time(project)");
+    info
+}
+
 fn fixed_empty(ctx: &Ctx) -> CaseInfo {
-    eval(&Case { before: vec![], coll: vec![], body: vec![Goal::Fail], after: vec![], fd: false }, ctx)
+    eval(&Case { before: vec![], coll: vec![], body: vec![Goal::Fail], after: vec![], fd: false, via_project: false }, ctx)
 }
 
 pub fn run_family_pub(bytes: &[u8], ctx: &Ctx) -> CaseInfo {
@@ -270,6 +324,7 @@ pub fn def() -> PropertyDef {
         families: vec![
             Family { name: "everyg", max_len: 96, quick: 120_000, thorough: 3_000_000, run: run_family },
             Family { name: "long-collections", max_len: 48, quick: 60_000, thorough: 150_000, run: run_long },
+            Family { name: "for-below-project", max_len: 96, quick: 60_000, thorough: 1_000_000, run: run_via_project },
         ],
         fixed: vec![Fixed { name: "empty-collection-with-failing-body", run: fixed_empty }],
         witnesses: vec![],
